@@ -12,24 +12,31 @@ of `Qv/Props/C13.lean` are about: `Impl.fixed`, `construct`, `Coll.append`, … 
 namespace Qv.ResX
 open Qv
 
+theorem ofEVal_injective : Function.Injective ofEVal := by
+  intro a b h
+  cases a <;> cases b <;> simp_all [ofEVal]
+
 theorem emb_injective : Function.Injective emb := by
   intro a b h
   obtain ⟨s, v, f⟩ := a
   obtain ⟨s', v', f'⟩ := b
   simp [emb] at h
-  simp [h]
+  simp [h.1, ofEVal_injective h.2.1, h.2.2]
 
 @[simp] theorem emb_inj {a b : Res.Result} : emb a = emb b ↔ a = b := emb_injective.eq_iff
 
-@[simp] theorem lt_fin (a b : Rat) : Num.lt (.fin a) (.fin b) = decide (a < b) := rfl
+/-- `ofEVal` carries the `<` of `EVal` (the values of `Qv.Res`) to `Num.lt` -/
+@[simp] theorem lt_fin (a b : EVal) : Num.lt (ofEVal a) (ofEVal b) = decide (a < b) := by
+  cases a <;> cases b <;> simp [ofEVal, Num.lt, EVal.lt_def, EVal.lt]
 
-@[simp] theorem le_fin (a b : Rat) : Num.le (.fin a) (.fin b) = decide (a ≤ b) := by
-  simp only [Num.le, Num.lt]
+/-- … and `≤` to `Num.le` -/
+@[simp] theorem le_fin (a b : EVal) : Num.le (ofEVal a) (ofEVal b) = decide (a ≤ b) := by
+  simp only [Num.le, lt_fin]
   by_cases h : a ≤ b
   · simp [h, not_lt.mpr h]
   · simp [h, not_le.mp h]
 
-@[simp] theorem emb_value (r : Res.Result) : (emb r).value = .fin r.value := rfl
+@[simp] theorem emb_value (r : Res.Result) : (emb r).value = ofEVal r.value := rfl
 @[simp] theorem emb_state (r : Res.Result) : (emb r).state = r.state := rfl
 @[simp] theorem emb_spin (r : Res.Result) : (emb r).spin = r.spin := rfl
 
@@ -227,7 +234,8 @@ theorem toSpin_emb (s : Res.Coll) : (embC s).toSpin = embC <$> Res.Coll.toSpin s
   cases Res.mapE Res.Result.toSpin s.items <;>
     simp [construct_emb, embC, pure, Except.pure, bind, Except.bind, Functor.map, Except.map]
 
-theorem lt_emb (r b : Res.Result) : (emb r).lt (some (emb b)) = .ok (decide (r.value < b.value)) := rfl
+theorem lt_emb (r b : Res.Result) : (emb r).lt (some (emb b)) = .ok (decide (r.value < b.value)) := by
+  simp [Result.lt, pure, Except.pure]
 
 theorem le_emb (r b : Res.Result) : (emb r).le (some (emb b)) = .ok (decide (r.value ≤ b.value)) := by
   simp [Result.le, pure, Except.pure]
